@@ -1,0 +1,171 @@
+/* -*- Mode: C; c-basic-offset:4 ; indent-tabs-mode:nil ; -*- */
+/*
+ * See COPYRIGHT in top-level directory.
+ */
+
+#ifndef ABTD_VERIF_FIBER_H_INCLUDED
+#define ABTD_VERIF_FIBER_H_INCLUDED
+
+/*
+ * Verification-only: tell AddressSanitizer / ThreadSanitizer about ULT context
+ * switches (they cannot follow hand-written stack switches otherwise).
+ * Included from abtd_fcontext.h only when PMODELS_ARGOBOTS_VERIF is defined.
+ */
+
+#include <pthread.h>
+
+#if defined(__SANITIZE_ADDRESS__)
+#define ABTD_VERIF_ASAN 1
+#endif
+#if defined(__SANITIZE_THREAD__)
+#define ABTD_VERIF_TSAN 1
+#endif
+#if defined(__has_feature)
+#if __has_feature(address_sanitizer) && !defined(ABTD_VERIF_ASAN)
+#define ABTD_VERIF_ASAN 1
+#endif
+#if __has_feature(thread_sanitizer) && !defined(ABTD_VERIF_TSAN)
+#define ABTD_VERIF_TSAN 1
+#endif
+#endif
+
+#ifdef ABTD_VERIF_ASAN
+void __sanitizer_start_switch_fiber(void **fake_stack_save, const void *bottom,
+                                    size_t size);
+void __sanitizer_finish_switch_fiber(void *fake_stack_save,
+                                     const void **bottom_old, size_t *size_old);
+void __asan_unpoison_memory_region(void const volatile *addr, size_t size);
+#endif
+
+#ifdef ABTD_VERIF_TSAN
+void *__tsan_get_current_fiber(void);
+void *__tsan_create_fiber(unsigned flags);
+void __tsan_destroy_fiber(void *fiber);
+void __tsan_switch_to_fiber(void *fiber, unsigned flags);
+
+/* Creating a TSan fiber is expensive, so released ones are cached. */
+#define ABTD_VERIF_FIBER_CACHE_SIZE 4096
+extern void *ABTD_verif_fiber_cache[ABTD_VERIF_FIBER_CACHE_SIZE];
+extern int ABTD_verif_fiber_cache_n;
+extern pthread_mutex_t ABTD_verif_fiber_cache_lock;
+
+static inline void *ABTD_verif_fiber_get(void)
+{
+    void *fiber = NULL;
+    pthread_mutex_lock(&ABTD_verif_fiber_cache_lock);
+    if (ABTD_verif_fiber_cache_n > 0)
+        fiber = ABTD_verif_fiber_cache[--ABTD_verif_fiber_cache_n];
+    pthread_mutex_unlock(&ABTD_verif_fiber_cache_lock);
+    return fiber ? fiber : __tsan_create_fiber(0);
+}
+
+static inline void ABTD_verif_fiber_put(void *fiber)
+{
+    pthread_mutex_lock(&ABTD_verif_fiber_cache_lock);
+    if (ABTD_verif_fiber_cache_n < ABTD_VERIF_FIBER_CACHE_SIZE) {
+        ABTD_verif_fiber_cache[ABTD_verif_fiber_cache_n++] = fiber;
+        fiber = NULL;
+    }
+    pthread_mutex_unlock(&ABTD_verif_fiber_cache_lock);
+    if (fiber)
+        __tsan_destroy_fiber(fiber);
+}
+#endif /* ABTD_VERIF_TSAN */
+
+static inline void ABTD_verif_ctx_init(ABTD_ythread_context *p_ctx)
+{
+    p_ctx->verif_tsan_fiber = NULL;
+    p_ctx->verif_asan_fake = NULL;
+    p_ctx->verif_tsan_owned = 0;
+}
+
+static inline void ABTD_verif_ctx_fini(ABTD_ythread_context *p_ctx)
+{
+#ifdef ABTD_VERIF_TSAN
+    if (p_ctx->verif_tsan_owned && p_ctx->verif_tsan_fiber)
+        ABTD_verif_fiber_put(p_ctx->verif_tsan_fiber);
+    p_ctx->verif_tsan_fiber = NULL;
+    p_ctx->verif_tsan_owned = 0;
+#else
+    (void)p_ctx;
+#endif
+}
+
+#ifdef ABTD_VERIF_ASAN
+static inline void ABTD_verif_stack_bounds(ABTD_ythread_context *p_ctx,
+                                           const void **p_bottom,
+                                           size_t *p_size)
+{
+    if (p_ctx->p_stacktop) {
+        *p_bottom = (const char *)p_ctx->p_stacktop - p_ctx->stacksize;
+        *p_size = p_ctx->stacksize;
+    } else {
+        /* This context runs on the stack of its OS thread (primary ULT, root
+         * ULTs of secondary execution streams). */
+        pthread_attr_t attr;
+        void *addr = NULL;
+        size_t size = 0;
+        pthread_getattr_np(pthread_self(), &attr);
+        pthread_attr_getstack(&attr, &addr, &size);
+        pthread_attr_destroy(&attr);
+        *p_bottom = addr;
+        *p_size = size;
+    }
+}
+#endif
+
+static inline void ABTD_verif_pre_switch(ABTD_ythread_context *p_old,
+                                         ABTD_ythread_context *p_new,
+                                         int is_jump)
+{
+#ifdef ABTD_VERIF_TSAN
+    if (p_old && !p_old->verif_tsan_fiber)
+        p_old->verif_tsan_fiber = __tsan_get_current_fiber();
+    if (!p_new->verif_tsan_fiber) {
+        p_new->verif_tsan_fiber = ABTD_verif_fiber_get();
+        p_new->verif_tsan_owned = 1;
+    }
+    __tsan_switch_to_fiber(p_new->verif_tsan_fiber, 0);
+#endif
+#ifdef ABTD_VERIF_ASAN
+    const void *bottom;
+    size_t size;
+    ABTD_verif_stack_bounds(p_new, &bottom, &size);
+    if (!ABTDI_fcontext_is_created(&p_new->ctx) && p_new->p_stacktop) {
+        /* A fresh context on a (possibly recycled) stack: red zones of frames
+         * that never returned (noreturn jumps) may remain poisoned. */
+        __asan_unpoison_memory_region(bottom, size);
+    }
+    __sanitizer_start_switch_fiber(is_jump ? NULL : &p_old->verif_asan_fake,
+                                   bottom, size);
+#endif
+    (void)p_old;
+    (void)p_new;
+    (void)is_jump;
+}
+
+static inline void ABTD_verif_post_switch(ABTD_ythread_context *p_old)
+{
+#ifdef ABTD_VERIF_ASAN
+    __sanitizer_finish_switch_fiber(p_old->verif_asan_fake, NULL, NULL);
+#endif
+    (void)p_old;
+}
+
+static inline void ABTD_verif_enter(ABTD_ythread_context *p_ctx)
+{
+#ifdef ABTD_VERIF_ASAN
+    __sanitizer_finish_switch_fiber(NULL, NULL, NULL);
+#endif
+    (void)p_ctx;
+}
+
+#define ABTD_VERIF_CTX_INIT(p_ctx) ABTD_verif_ctx_init(p_ctx)
+#define ABTD_VERIF_CTX_FINI(p_ctx) ABTD_verif_ctx_fini(p_ctx)
+#define ABTD_VERIF_PRE_SWITCH(p_old, p_new)                                    \
+    ABTD_verif_pre_switch(p_old, p_new, 0)
+#define ABTD_VERIF_POST_SWITCH(p_old) ABTD_verif_post_switch(p_old)
+#define ABTD_VERIF_PRE_JUMP(p_new) ABTD_verif_pre_switch(NULL, p_new, 1)
+#define ABTD_VERIF_ENTER(p_ctx) ABTD_verif_enter(p_ctx)
+
+#endif /* ABTD_VERIF_FIBER_H_INCLUDED */
